@@ -483,6 +483,38 @@ func (g *fgen) stmt() {
 		g.inLoop--
 		g.env = g.env[:len(g.env)-2]
 		g.line("}")
+	case k < 61 && g.depth < 3: // range over a string / select
+		if r.Intn(2) == 0 {
+			g.count("s:range-string")
+			kv, vv := g.fresh(), g.fresh()
+			g.line("for %s, %s := range %s {", kv, vv, g.base(tStr))
+			g.env = append(g.env, gvar{kv, tInt})
+			g.depth++
+			g.line("_, _ = %s, %s", kv, vv)
+			g.line("useInt(%s + int(%s))", kv, vv)
+			g.depth--
+			g.inLoop++
+			g.block(1)
+			g.inLoop--
+			g.env = g.env[:len(g.env)-1]
+			g.line("}")
+		} else {
+			g.count("s:select")
+			a, b2 := g.fresh(), g.fresh()
+			g.line("select {")
+			g.line("case %s := <-%s:", a, g.base(tChanS))
+			g.depth++
+			g.line("useStr(%s)", a)
+			g.depth--
+			g.line("case %s, ok := <-%s:", b2, g.base(tChanI))
+			g.depth++
+			g.line("_ = ok")
+			g.line("useInt(%s)", b2)
+			g.depth--
+			g.line("case %s <- %s:", g.base(tChanS), g.expr(tStr, 1))
+			g.line("default:")
+			g.line("}")
+		}
 	case k < 63 && g.depth < 3: // switch
 		g.count("s:switch")
 		g.line("switch %s {", g.expr(tInt, 0))
